@@ -312,3 +312,13 @@ package stage
 //@   forbid call (*Stage).Recover label constructor-touches-nothing
 //@   forbid call (*Stage).clean label constructor-touches-nothing
 //@   modifies everything
+
+// ---------------------------------------------------------------- clean-up thresholds (C20)
+
+// every clean-up pass - periodic or on demand - leaves partials alone that are younger than a day
+//@ func (*Stage).clean
+//@   before call (*Stage).cleanStrays assert strays-must-be-a-day-old: arg1 == 86400000000000
+//@   modifies everything
+//@ func (*Stage).CleanNow
+//@   on return assert same-thresholds-as-the-periodic-pass: called((*Stage).clean) && lastarg((*Stage).clean, 0) == s
+//@   modifies everything
